@@ -25,6 +25,14 @@ func normCond(f *xlib.File, e ast.Expr, v, as string) string {
 	var split func(e ast.Expr)
 	split = func(e ast.Expr) {
 		if p, ok := e.(*ast.ParenExpr); ok {
+			if b, ok := p.X.(*ast.BinaryExpr); ok && b.Op != token.LAND {
+				s := "(" + f.Src(p.X) + ")" // a disjunction (or comparison) in parentheses is one conjunct
+				if v != "" {
+					s = renameIdent(s, v, as)
+				}
+				conj = append(conj, s)
+				return
+			}
 			split(p.X)
 			return
 		}
